@@ -668,9 +668,41 @@ class Exec(CallsMixin, Interp):
                     z3.And(0 <= q, q < K.seq_len(src)),
                     z3.And(*[z3.Select(a, q) == t for a, t in zip(out.terms[1:], e.terms)]))))
                 return out
+            if tag == 'seq' and len(g.ifs) >= 1:
+                return self.filter_comprehension(elt, g, src)
             raise Unsupported('comprehension over %s' % tag)
         finally:
             self.env = saved
+
+    def filter_comprehension(self, elt, g, src):
+        """[elt for x in src if pred]: axiomatised as an order-preserving filter (spec-mode pred/elt)."""
+        n = K.seq_len(src)
+        idx = self.p.fresh('flt!idx', z3.ArraySort(z3.IntSort(), z3.IntSort()))
+        inv = self.p.fresh('flt!inv', z3.ArraySort(z3.IntSort(), z3.IntSort()))
+        j, j2, i = (self.p.fresh('flt!j', z3.IntSort()), self.p.fresh('flt!j2', z3.IntSort()),
+                    self.p.fresh('flt!i', z3.IntSort()))
+        saved_spec, self.spec = self.spec, True
+        try:
+            def at(pos):
+                self.assign_to(g.target, K.seq_get(src, pos))
+                pred = z3.And(*[self.truth(self.eval(c)) for c in g.ifs])
+                return pred, self.eval(elt)
+            pj, ej = at(z3.Select(idx, j))
+            pi, _ = at(i)
+        finally:
+            self.spec = saved_spec
+        out = self.p.fresh_value(K.Seq(ej.kind), 'flt')
+        m = K.seq_len(out)
+        self.p.assume(z3.And(0 <= m, m <= n))
+        self.p.assume(z3.ForAll([j], z3.Implies(z3.And(0 <= j, j < m), z3.And(
+            0 <= z3.Select(idx, j), z3.Select(idx, j) < n, pj,
+            *[z3.Select(a, j) == t for a, t in zip(out.terms[1:], ej.terms)]))))
+        self.p.assume(z3.ForAll([j, j2], z3.Implies(z3.And(0 <= j, j < j2, j2 < m),
+                                                    z3.Select(idx, j) < z3.Select(idx, j2))))
+        self.p.assume(z3.ForAll([i], z3.Implies(z3.And(0 <= i, i < n, pi), z3.And(
+            0 <= z3.Select(inv, i), z3.Select(inv, i) < m, z3.Select(idx, z3.Select(inv, i)) == i))))
+        self.p.filter_maps = getattr(self.p, 'filter_maps', []) + [(idx, inv)]
+        return out
 
     def e_ListComp(self, node):
         return self.comprehension(node.elt, node.generators, 'list')
